@@ -35,6 +35,7 @@ fn main() {
         "litctx" => lit::run_ctx(tier, seed, &mut out),
         "path" => path::run(tier, seed, &mut out),
         "scopes" => scopes::run(tier, seed, &mut out),
+        "scopeval" => scopes::run_val(tier, seed, &mut out),
         "probe" => probe::run(&args[2..]),
         _ => {
             eprintln!("unknown command {}", cmd);
